@@ -26,8 +26,36 @@ def showErr : Err → String
   | .nonIntegral => "ValueError:check"
   | .emptySeparator => "ValueError:emptySeparator"
 
+/-- the parameter as `to_reaction` treats its text: `sym"k"` for the quoted form, `"text"` for an expression -/
+def showParam : Option Str → String
+  | none => "-"
+  | some p =>
+    match classifyParam p with
+    | .symbol k => "sym\"" ++ escStr k ++ "\""
+    | .expr t => "\"" ++ escStr t ++ "\""
+
 def showReaction (r : Reaction) : String :=
-  s!"{showDict r.reac} {showDict r.prod} {showDict r.inactReac} {showDict r.inactProd} {showOptStr r.param}"
+  s!"{showDict r.reac} {showDict r.prod} {showDict r.inactReac} {showDict r.inactProd} {showParam r.param}"
+
+def getOptStrList (j : Json) (k : String) : Except String (Option (List String)) :=
+  match j.getObjVal? k with
+  | .ok .null => .ok none
+  | .ok (.arr a) => do pure (some (← a.toList.mapM asStr))
+  | .error _ => .ok none          -- absent: the argument is not given
+  | _ => .error s!"!bad-arg:{k}"
+
+def getKinds (j : Json) : Except String (ContainerKind × ContainerKind × ContainerKind × ContainerKind) := do
+  let kinds ← (← getStrList j "kinds").mapM fun k =>
+    match k with
+    | "dict" => pure ContainerKind.dict
+    | "ordered" => pure ContainerKind.ordered
+    | "set" => pure ContainerKind.set
+    | _ => throw "!bad-arg:kinds"
+  match kinds with
+  | [a, b, c, d] => pure (a, b, c, d)
+  | _ => throw "!bad-arg:kinds"
+
+def showB (b : Bool) : String := if b then "True" else "False"
 
 def showStrs (l : List Str) : String := "[" ++ ",".intercalate (l.map escStr) ++ "]"
 
@@ -90,7 +118,28 @@ def h : Handler := fun op j =>
       pure (showStrs ((sortDict (ss.map fun s => (s.toList, Coef.ofNat 1))).map (·.1)))
   | "print" => do
       let r ← getReaction j
-      pure (showOptOut (printReaction (← getS j "arrow") (← getBool j "with_param") (← getBool j "with_name") r))
+      let extra := (← getOptStrList j "settings").getD []
+      let nofb ← match j.getObjVal? "no_fallback" with
+        | .ok (.bool b) => pure b
+        | .ok .null => pure false
+        | .error _ => pure false
+        | _ => throw "!bad-arg:no_fallback"
+      match printReactionWith extra nofb (← getS j "arrow") (← getBool j "with_param") (← getBool j "with_name") r with
+      | .ok o => pure (showOptOut o)
+      | .error .unknownSetting => pure "ValueError:unknownSetting"
+      | .error .cannotPrint => pure "ValueError:cannotPrint"
+  | "construct" => do
+      -- the constructor with containers of the given kinds and the checks / dont_check arguments;
+      -- answer: the object (or the refusal) and the three check predicates evaluated with throw=False
+      let (kr, kp, kir, kip) ← getKinds j
+      let r := Reaction.construct kr kp kir kip (← getDict j "reac") (← getDict j "prod") (← getDict j "inact_reac")
+        (← getDict j "inact_prod") (← getOptS j "param") (← getOptS j "name")
+      let preds := s!"{showB r.anyEffect} {showB r.allPositive} {showB r.allIntegral}"
+      match r.initChecks (← getOptStrList j "checks") (← getOptStrList j "dont_check") with
+      | .ok r => pure (s!"ok {showDict r.reac} {showDict r.prod} {showDict r.inactReac} {showDict r.inactProd} | {preds}")
+      | .error .both => pure s!"ValueError:both | {preds}"
+      | .error .unknownCheck => pure s!"AttributeError | {preds}"
+      | .error .failed => pure s!"ValueError:check | {preds}"
   | "eq" => do
       let a ← getReaction (← j.getObjVal? "a" |>.mapError fun _ => "!bad-arg:a")
       let b ← getReaction (← j.getObjVal? "b" |>.mapError fun _ => "!bad-arg:b")
